@@ -209,11 +209,12 @@ class PyDBMLParser:
     def locate_table(self, schema: str, name: str) -> "Table":
         if not self.database:
             raise RuntimeError("Database is not ready")
-        # first by alias
-        result = self.database.table_dict.get(name)
+        # first by full name, so that another table's alias cannot shadow it
+        full_name = f"{schema}.{name}"
+        result = self.database.table_dict.get(full_name)
         if result is None:
-            full_name = f"{schema}.{name}"
-            result = self.database.table_dict.get(full_name)
+            # then by alias
+            result = self.database.table_dict.get(name)
         if result is None:
             raise TableNotFoundError(f"Table {full_name} not present in the database")
         return result
